@@ -83,6 +83,8 @@ def worker(cfg, tier):
         K = [ts_sent[i] + d for i in range(n)]
     obs = []
     tmo = 400 if tier == "quick" else 1200
+    heavy = W >= 2  # non-linear queries over a 2-entry window with 4+ knots: z3's nlsat time is erratic; decided when it answers, else dropped (stated)
+    tmo_heavy = 60 if tier == "quick" else 900
     od = out.data.y.flat()
     # query times written independently: x_j = ts_start - (K[idx_max-1] - K[idx_min+j]) with idx_max = n - m
     goals_pl, goals_between, goals_newest = [], [], []
@@ -107,18 +109,27 @@ def worker(cfg, tier):
         ("newest entry == sender's piecewise-linear signal (knots at send times) evaluated at ts_start - delay", goals_newest, "interp-newest"),
         ("newest entry lies between the two neighbouring messages' values", goals_between, "interp-between"),
     ]:
-        fa = smt.abstract_apps(inv + [z3.And(*goal)])
-        v, mdl, s = smt.check(fa[:-1], fa[-1], tmo)
-        o = Ob(f"{interp}: {name}", v, s, cfg, key=key, what=f"apply_delay({interp}) violates: {name}")
-        if v == "sat":
-            o.replayed = _replay(cfg, mdl, tr, flat, name)
+        # one query per (number of unarrived entries, window position): small non-linear queries are decided quickly, one big conjunction is not
+        verdict, secs, mdl_bad = "unsat", 0.0, None
+        for gi in goal:
+            fa = smt.abstract_apps(inv + [gi])
+            v, mdl, s = smt.check(fa[:-1], fa[-1], tmo_heavy if heavy else tmo)
+            secs += s
+            if v == "sat":
+                verdict, mdl_bad = "sat", mdl
+                break
+            if v == "unknown":
+                verdict = "unknown"
+        o = Ob(f"{interp}: {name}", verdict, secs, cfg, key=key, what=f"apply_delay({interp}) violates: {name}", queries=len(goal), optional=heavy)
+        if verdict == "sat":
+            o.replayed = _replay(cfg, mdl_bad, tr, flat, name)
         obs.append(o)
     # coincidence with zero-order hold when the delayed arrival coincides with a message
     ins_z, _, _ = _mk(W, rate, dmin, dmax, "zoh")
     trz = jx.Traced(lambda i, t: i.delay_dist.apply_delay(rate, i, t), ins_z, np.float32(0.0))
     outz = trz.run(it, flat)
     coincide = z3.Or(*[z3.And(seq[i] >= 0, ts_sent[i] + d == ts_start) for i in range(n)])
-    v, mdl, s = smt.check(inv + [coincide], od[W - 1] == outz.data.y.flat()[W - 1], tmo)
+    v, mdl, s = smt.check(inv + [coincide], od[W - 1] == outz.data.y.flat()[W - 1], tmo)  # required for every window size
     o = Ob(f"{interp}: when ts_start - delay coincides with a message the newest entry equals the zero-order-hold result", v, s, cfg, key="interp-zoh",
            what="interpolated and zero-order-hold results differ when the delayed arrival coincides with a message")
     if v == "sat":
@@ -141,10 +152,18 @@ def worker(cfg, tier):
             inside = z3.And(seq[i] >= 0, seq[i + 1] >= 0, ts_sent[i] + d < ts_start, ts_start < ts_sent[i + 1] + d)
             slope = (data[i + 1] - data[i]) / (ts_sent[i + 1] - ts_sent[i])
             conj.append(z3.Implies(inside, g == -span * slope))
-        fa = smt.abstract_apps(inv + [z3.And(*conj)])
-        v, mdl, s = smt.check(fa[:-1], fa[-1], tmo)
+        v, s = "unsat", 0.0
+        for gi in conj:  # one query per segment
+            fa = smt.abstract_apps(inv + [gi])
+            vi, mdl, si = smt.check(fa[:-1], fa[-1], tmo_heavy if heavy else tmo)
+            s += si
+            if vi == "sat":
+                v = "sat"
+                break
+            if vi == "unknown":
+                v = "unknown"
         o = Ob(f"{interp}: d(newest entry)/d(alpha) == -(max-min) * finite-difference slope of the bracketing messages, strictly inside a segment", v, s, cfg,
-               key="interp-grad", what="gradient of the interpolated value w.r.t. the delay parameter is not minus the signal's slope")
+               key="interp-grad", what="gradient of the interpolated value w.r.t. the delay parameter is not minus the signal's slope", queries=len(conj), optional=heavy)
         if v == "sat":
             o.replayed = _replay_grad(cfg)
         obs.append(o)
@@ -235,7 +254,9 @@ def run(rep):
     rep.assumptions = ["floats as reals (float32 rounding of slopes outside)", "extended-window invariant of C10 plus send times at least 1us apart and sender regularity (<= ext unarrived entries)",
                        "'linear': at most one not-yet-filled entry (several default entries share the knot t=0); 'linear_real_only': windows without default entries "
                        "(its -1e9 sentinel relies on float absorption, which the real model cannot express) -- both restrictions are stated bounds",
-                       "continuity in the delay is covered through the zero-order-hold coincidence at the breakpoints; Lipschitz bound not attempted"]
+                       "continuity in the delay is covered through the zero-order-hold coincidence at the breakpoints; Lipschitz bound not attempted",
+                       "window 2: the interpolant/gradient equalities are non-linear queries whose nlsat time is erratic; they are attempted under a cap and, if the solver does not answer, "
+                       "reported under notes and dropped from the claim (never counted as held); window 1 and the zoh-coincidence/bracketing obligations are required"]
     rep.add_all(pmap("props.c11", "worker", cfgs, rep.tier))
 
 
